@@ -321,8 +321,7 @@ def register_dispatcher_contracts(spec, sort):
           'wf': ("wf(self, 'Disp')", 'prop'),
           'unknown-silent': 'implies(not (event_name in old(self._events)), '
                             'all(cnt(c) == old(cnt(c)) for c in Call) and '
-                            'self._event_queue == old(self._event_queue) and '
-                            'self._dispatch_enabled == old(self._dispatch_enabled))',
+                            "unchanged_except(self, ''))",
           'disabled-defers': 'implies(event_name in old(self._events) and '
                              'not old(self._dispatch_enabled), '
                              'all(cnt(c) == old(cnt(c)) for c in Call) and '
@@ -330,7 +329,7 @@ def register_dispatcher_contracts(spec, sort):
                              'is_prefix(old(self._event_queue), self._event_queue) and '
                              'self._event_queue[len(old(self._event_queue))] == '
                              'qe(event_name, args, kwargs) and '
-                             'self._dispatch_enabled == old(self._dispatch_enabled))',
+                             "unchanged_except(self, '_event_queue'))",
           'at-most-once-nothing-else': 'all((cnt(c) == old(cnt(c)) or (cnt(c) == old(cnt(c)) + 1 '
                                        'and old(self._dispatch_enabled) and ' + expected + ')) '
                                        'for c in Call)',
